@@ -2,7 +2,7 @@
 # tools/confirm_seed2.sh <ID> [suffix] : confirm a round-2 sub-agent seed in its scratch worktree /tmp/wt2_<ID> (tests pass with the
 # change, demo fails with it, demo passes without it; no git stash: the stash is shared between worktrees) and copy it to
 # /verif/seeded/<ID><suffix>/
-id=$1; sfx=${2:-b}; wt=/tmp/wt2_$id; out=/verif/seeded/$id$sfx
+id=$1; sfx=${2:-b}; wt=${WT:-/tmp/wt2_$id}; out=/verif/seeded/$id$sfx
 SRCS="$wt/src/civil_time_detail.cc $wt/src/time_zone_fixed.cc $wt/src/time_zone_format.cc $wt/src/time_zone_if.cc $wt/src/time_zone_impl.cc $wt/src/time_zone_info.cc $wt/src/time_zone_libc.cc $wt/src/time_zone_lookup.cc $wt/src/time_zone_posix.cc $wt/src/zone_info_source.cc"
 CXX=${CXX:-g++}; FLAGS=${FLAGS:--std=c++17 -O1 -g}
 build_demo() { $CXX $FLAGS -I$wt/include -I$wt/src $wt/SEED/demo.cc $SRCS -lpthread -o $wt/SEED/demo_bin 2>$wt/SEED/build.log; }
